@@ -12,7 +12,6 @@ use std::collections::{BTreeMap, BTreeSet};
 use std::hash::{DefaultHasher, Hash, Hasher};
 use std::panic::{AssertUnwindSafe, catch_unwind};
 
-thread_local! { static PT: std::time::Instant = std::time::Instant::now(); }
 fn sip<T: Hash + ?Sized>(t: &T) -> u64 {
     let mut h = DefaultHasher::new();
     t.hash(&mut h);
@@ -69,12 +68,11 @@ pub struct Model<'a> {
     strs: Vec<(String, Vec<u16>)>,
     full: Params,
     light: Params,
-    minimal: Params,
 }
 
 impl<'a> Model<'a> {
     #[allow(clippy::too_many_lines)]
-    fn new(u: &'a [u16], others: &[Vec<u16>], rng: &mut Rng) -> Self {
+    fn new(u: &'a [u16], others: &[Vec<u16>], rng: &mut Rng, lite: bool) -> Self {
         let n = u.len();
         let exhaustive = n <= 12;
         // ---- needles for index_of / starts_with / ends_with
@@ -199,7 +197,7 @@ impl<'a> Model<'a> {
                 positions: (0..n).collect(),
             }
         };
-        let light = if n <= 4 {
+        let light = if n <= 4 && !lite {
             Params {
                 needles: all_needles.clone(),
                 froms: all_froms,
@@ -215,14 +213,6 @@ impl<'a> Model<'a> {
                 windows: some_windows(1, rng),
                 positions: some_positions(4, rng),
             }
-        };
-
-        let minimal = Params {
-            needles: some(4, rng),
-            froms: vec![0, n / 2, n + 1],
-            ranges: vec![(0, n), (n / 2, n), (1, n + 1), (n, n)],
-            windows: vec![n.max(1)],
-            positions: some_positions(0, rng),
         };
 
         // ---- bytes for contains(): present ones, low bytes of wide units (truncation), absent ones
@@ -333,7 +323,6 @@ impl<'a> Model<'a> {
             strs,
             full,
             light,
-            minimal,
         }
     }
 }
@@ -392,13 +381,10 @@ fn unary(ctx: &mut Ctx, m: &Model<'_>, b: &Built, level: Level, first_hashes: (u
     let (u, n) = (m.u, m.n);
     let p = match level {
         Level::Full => &m.full,
-        Level::Light => &m.light,
-        Level::Minimal => &m.minimal,
+        Level::Light | Level::Minimal => &m.light,
     };
-    let minimal = level == Level::Minimal;
     let js = s.as_str();
 
-    if ctx.prof { eprintln!("[prof-unary] {:?} before: size and raw content", PT.with(|t| t.elapsed())); }
     // ---- size and raw content
     ck!("len", c, n, s.len());
     ck!("is_empty", c, n == 0, s.is_empty());
@@ -412,6 +398,27 @@ fn unary(ctx: &mut Ctx, m: &Model<'_>, b: &Built, level: Level, first_hashes: (u
             ck!("variant", c, u, w);
             ck!("as_latin1", c, (false, false), (js.is_latin1(), js.as_latin1().is_some()));
         }
+    }
+    if level == Level::Minimal {
+        // `--lite` (Miri), not a class leader: touch the memory paths only (content through the vtable,
+        // one hash, one slice with its reference on the source, clone and drop)
+        ck!("iter", c, u.to_vec(), s.iter().collect::<Vec<u16>>());
+        ck!("Hash (Fx-like)", c, first_hashes.1, fx(s));
+        ck!("code_unit_at", c, u.get(n / 2).copied(), s.code_unit_at(n / 2));
+        ck!("code_points", c, m.cps.clone(), s.code_points().map(cp_of).collect::<Vec<_>>());
+        let r0 = s.refcount();
+        let t = s.slice(n / 2, n);
+        content("slice", c, &u[n / 2..], &t)?;
+        let k = s.clone();
+        if let Some(r) = r0 {
+            let held = usize::from(!t.is_static()) + 1;
+            ck!("refcount while a slice and a clone are alive", c, Some(r + held), s.refcount());
+        }
+        drop((t, k));
+        ck!("refcount after dropping them", c, r0, s.refcount());
+        ck!("JsString == [u16]", c, true, *s == *u);
+        ctx.bump("lite: minimal per-construction block", 8);
+        return Ok(());
     }
     ck!("to_vec", c, u.to_vec(), s.to_vec());
     ck!("JsStr::to_vec", c, u.to_vec(), js.to_vec());
@@ -436,7 +443,6 @@ fn unary(ctx: &mut Ctx, m: &Model<'_>, b: &Built, level: Level, first_hashes: (u
     ctx.bump("to_vec", 2);
     ctx.bump("iter", 6);
 
-    if ctx.prof { eprintln!("[prof-unary] {:?} before: indexing", PT.with(|t| t.elapsed())); }
     // ---- indexing
     for i in 0..n + 2 {
         ck!("code_unit_at", c, (i, u.get(i).copied()), (i, s.code_unit_at(i)));
@@ -482,7 +488,6 @@ fn unary(ctx: &mut Ctx, m: &Model<'_>, b: &Built, level: Level, first_hashes: (u
         ctx.bump("CodePoint api", 2 + 2 * got.len() as u64);
     }
 
-    if ctx.prof { eprintln!("[prof-unary] {:?} before: windows", PT.with(|t| t.elapsed())); }
     // ---- windows
     for &k in &p.windows {
         let mut w = s.windows(k);
@@ -503,7 +508,6 @@ fn unary(ctx: &mut Ctx, m: &Model<'_>, b: &Built, level: Level, first_hashes: (u
         ctx.bump("windows", 1 + i as u64);
     }
 
-    if ctx.prof { eprintln!("[prof-unary] {:?} before: hashing: equal to the first construction's hash under both hashers, JsStr and JsString agree", PT.with(|t| t.elapsed())); }
     // ---- hashing: equal to the first construction's hash under both hashers, JsStr and JsString agree
     ck!("Hash (DefaultHasher)", c, first_hashes.0, sip(s));
     ck!("Hash (DefaultHasher, JsStr)", c, first_hashes.0, sip(&js));
@@ -511,7 +515,6 @@ fn unary(ctx: &mut Ctx, m: &Model<'_>, b: &Built, level: Level, first_hashes: (u
     ck!("Hash (Fx-like, JsStr)", c, first_hashes.1, fx(&js));
     ctx.bump("Hash", 4);
 
-    if ctx.prof { eprintln!("[prof-unary] {:?} before: conversions to Rust strings", PT.with(|t| t.elapsed())); }
     // ---- conversions to Rust strings
     {
         let got = s.to_std_string();
@@ -521,22 +524,19 @@ fn unary(ctx: &mut Ctx, m: &Model<'_>, b: &Built, level: Level, first_hashes: (u
         ck!("JsStr::to_std_string_lossy", c, m.lossy.clone(), js.to_std_string_lossy());
         ck!("to_std_string_escaped", c, m.escaped.clone(), s.to_std_string_escaped());
         ctx.bump("to_std_string*", 5);
-        if !minimal {
-            ck!("display_escaped", c, m.escaped.clone(), format!("{}", s.display_escaped()));
-            ck!("display_lossy", c, m.lossy.clone(), format!("{}", s.display_lossy()));
-            ck!("JsStr::display_lossy", c, m.lossy.clone(), js.display_lossy().to_string());
-            ck!("to_std_string_with_surrogates", c, m.segs.clone(), s.to_std_string_with_surrogates().collect::<Vec<_>>());
-            let mapped = s.map_valid_segments(|t| format!("<{t}>"));
-            content("map_valid_segments", c, &m.mapped, &mapped)?;
-            ck!("Debug", c, format!("JsString({:?})", m.escaped), format!("{s:?}"));
-            ck!("JsStr Debug", c, format!("JsStr {{ len: {n} }}"), format!("{js:?}"));
-            ctx.bump("display_*", 3);
-            ctx.bump("to_std_string_with_surrogates/map_valid_segments", 2);
-            ctx.bump("Debug", 2);
-        }
+        ck!("display_escaped", c, m.escaped.clone(), format!("{}", s.display_escaped()));
+        ck!("display_lossy", c, m.lossy.clone(), format!("{}", s.display_lossy()));
+        ck!("JsStr::display_lossy", c, m.lossy.clone(), js.display_lossy().to_string());
+        ck!("to_std_string_with_surrogates", c, m.segs.clone(), s.to_std_string_with_surrogates().collect::<Vec<_>>());
+        let mapped = s.map_valid_segments(|t| format!("<{t}>"));
+        content("map_valid_segments", c, &m.mapped, &mapped)?;
+        ck!("Debug", c, format!("JsString({:?})", m.escaped), format!("{s:?}"));
+        ck!("JsStr Debug", c, format!("JsStr {{ len: {n} }}"), format!("{js:?}"));
+        ctx.bump("display_*", 3);
+        ctx.bump("to_std_string_with_surrogates/map_valid_segments", 2);
+        ctx.bump("Debug", 2);
     }
 
-    if ctx.prof { eprintln!("[prof-unary] {:?} before: to_number: all constructions agree; on the safe subset they agree with the model", PT.with(|t| t.elapsed())); }
     // ---- to_number: all constructions agree; on the safe subset they agree with the model
     {
         let got = Num(s.to_number());
@@ -549,7 +549,6 @@ fn unary(ctx: &mut Ctx, m: &Model<'_>, b: &Built, level: Level, first_hashes: (u
         ctx.bump("to_number (consistency)", 2);
     }
 
-    if ctx.prof { eprintln!("[prof-unary] {:?} before: trimming", PT.with(|t| t.elapsed())); }
     // ---- trimming
     {
         let r0 = s.refcount();
@@ -569,16 +568,14 @@ fn unary(ctx: &mut Ctx, m: &Model<'_>, b: &Built, level: Level, first_hashes: (u
         ctx.bump("refcount conservation", 2);
     }
 
-    if ctx.prof { eprintln!("[prof-unary] {:?} before: contains(u8)", PT.with(|t| t.elapsed())); }
     // ---- contains(u8)
-    let nbytes = if minimal { 3 } else { m.test_bytes.len() };
-    for &byte in m.test_bytes.iter().rev().take(nbytes) {
+    let nbytes = m.test_bytes.len();
+    for &byte in &m.test_bytes {
         let exp = u.iter().any(|x| *x == u16::from(byte));
         ck!("contains", c, (byte, exp), (byte, s.contains(byte)));
     }
     ctx.bump("contains", nbytes as u64);
 
-    if ctx.prof { eprintln!("[prof-unary] {:?} before: index_of / starts_with / ends_with", PT.with(|t| t.elapsed())); }
     // ---- index_of / starts_with / ends_with
     let mut cnt = 0u64;
     for &ni in &p.needles {
@@ -605,7 +602,6 @@ fn unary(ctx: &mut Ctx, m: &Model<'_>, b: &Built, level: Level, first_hashes: (u
     ctx.bump("index_of", cnt);
     ctx.bump("starts_with/ends_with", 2 * cnt / (p.froms.len().max(1) as u64));
 
-    if ctx.prof { eprintln!("[prof-unary] {:?} before: get(range) of every kind, slice(), JsStr::get(range)", PT.with(|t| t.elapsed())); }
     // ---- get(range) of every kind, slice(), JsStr::get(range)
     let mut gets = 0u64;
     let r0 = s.refcount();
@@ -629,8 +625,7 @@ fn unary(ctx: &mut Ctx, m: &Model<'_>, b: &Built, level: Level, first_hashes: (u
         drop(got);
         gets += 5;
     }
-    let one_sided: Vec<usize> = if minimal { vec![0, n / 2, n, n + 1] } else { (0..=n + 1).collect() };
-    for i in one_sided {
+    for i in 0..=n + 1 {
         let exp = if i <= n { Some(&u[i..]) } else { None };
         sub_check("get(i..)", c, s, (i, n), exp, s.get(i..))?;
         jsstr_sub("JsStr::get(i..)", c, (i, n), exp, js.get(i..))?;
@@ -656,7 +651,6 @@ fn unary(ctx: &mut Ctx, m: &Model<'_>, b: &Built, level: Level, first_hashes: (u
     ctx.bump("get(range kinds)/slice", gets + 6);
     ctx.bump("refcount conservation", 2);
 
-    if ctx.prof { eprintln!("[prof-unary] {:?} before: comparisons with the plain unit array", PT.with(|t| t.elapsed())); }
     // ---- comparisons with the plain unit array
     ck!("JsString == [u16]", c, true, *s == *u);
     ck!("[u16] == JsString", c, true, *u == *s);
@@ -677,11 +671,8 @@ fn unary(ctx: &mut Ctx, m: &Model<'_>, b: &Built, level: Level, first_hashes: (u
             }
         )+};
     }
-    if !minimal {
-        arr!(0, 1, 2, 3, 4);
-        ctx.bump("PartialEq<[u16]> (all impls)", 10);
-    }
-    ctx.bump("PartialEq<[u16]> (all impls)", 3);
+    arr!(0, 1, 2, 3, 4);
+    ctx.bump("PartialEq<[u16]> (all impls)", 13);
     Ok(())
 }
 
@@ -796,7 +787,7 @@ pub fn check_string(ctx: &mut Ctx, arena: &mut Arena, u: &[u16], others: &[Vec<u
     };
     let built = ctor::build_all(ctx, arena, u, &mut rng)?;
     mark("constructions built");
-    let m = Model::new(u, others, &mut rng);
+    let m = Model::new(u, others, &mut rng, ctx.lite);
     mark("model prepared");
     let n = m.n;
 
@@ -834,12 +825,11 @@ pub fn check_string(ctx: &mut Ctx, arena: &mut Arena, u: &[u16], others: &[Vec<u
         if leader {
             leaders.push(k);
         }
-        let level = if leader || (!lite && n <= 6) {
-            Level::Full
-        } else if lite {
-            Level::Minimal
-        } else {
-            Level::Light
+        let level = match (lite, leader) {
+            (false, true) => Level::Full,
+            (false, false) => if n <= 6 { Level::Full } else { Level::Light },
+            (true, true) => Level::Light,
+            (true, false) => Level::Minimal,
         };
         unary(ctx, &m, b, level, first_hashes, first_number)?;
     }
@@ -856,9 +846,13 @@ pub fn check_string(ctx: &mut Ctx, arena: &mut Arena, u: &[u16], others: &[Vec<u
     }
 
     // ---- every pair of constructions
-    for i in 0..built.len() {
+    let firsts: Vec<usize> = if lite { leaders.clone() } else { (0..built.len()).collect() };
+    let mut np = 0u64;
+    for &i in &firsts {
         let (a, an) = (&built[i].s, built[i].name.as_str());
-        for bj in &built[i + 1..] {
+        let start = if lite { 0 } else { i + 1 };
+        for bj in &built[start..] {
+            np += 1;
             let (b, bn) = (&bj.s, bj.name.as_str());
             let c: &[&str] = &[an, bn];
             if !(*a == *b && *b == *a) || *a != *b {
@@ -882,7 +876,6 @@ pub fn check_string(ctx: &mut Ctx, arena: &mut Arena, u: &[u16], others: &[Vec<u
             }
         }
     }
-    let np = (built.len() * (built.len() - 1) / 2) as u64;
     ctx.bump("pairs: ==", 3 * np);
     ctx.bump("pairs: cmp/partial_cmp", if lite { 2 * np } else { 3 * np });
     if !lite {
